@@ -227,15 +227,23 @@ func MergeErrors(err, other error) error {
 	}
 	e := asError(err)
 	o := asError(other)
-	if e.Name == "error" {
-		e.Name = o.Name
-	}
 
 	// Combine error lineage. We only ever put original errors into the history slice, so we
 	// don't need to worry about gaining intermediate merges.
 	//
-	// Do this before we modify ourselves, as History() may include us!
-	e.history = append(e.History(), o.History()...)
+	// Do this before we modify ourselves, as History() may include us! If e was never
+	// merged then its history is e itself: record a copy so that the history keeps the
+	// original error rather than the result of the merge.
+	hist := e.History()
+	if len(e.history) == 0 {
+		orig := *e
+		hist = []*ServiceError{&orig}
+	}
+	e.history = append(hist, o.History()...)
+
+	if e.Name == "error" {
+		e.Name = o.Name
+	}
 	e.err = errors.Join(e.err, o.err)
 
 	e.Message = e.Message + "; " + o.Message
